@@ -70,12 +70,17 @@ def run(c):
     thorough = c.tier == "thorough"
     c.go2coq_sources = ["c20.go"]
     c.rule = ("rules files with 1..3 groups; each group has 0..3 Import() calls out of packages whose base names collide with each "
-              "other and with the stdlib (example.com/io, a/foo, b/foo, html/template, c20/lib also present as a vendored copy), "
-              "may be skipped by GroupFilter, and has 1..3 rules with a qualified name in Type.Is / Underlying().Is / Implements "
-              "(pkg.T and fully-qualified) / HasMethod; hand-written collision scenarios + seeded random ones; all loaded into one "
-              "engine and run once over 25 typed probes per rule. A case (file, group, rule) is non-trivial when the name's package "
-              "is bound by an Import() of that or another group of the file, or the expected outcome is a load error, or the rule "
-              "reports at least one probe; distinct by (imports of all groups, skip flags, the rule's request)")
+              "other and with the stdlib (example.com/io, a/foo, b/foo, html/template, text/scanner, c20/lib), may be skipped by "
+              "GroupFilter, and has 1..3 rules with a qualified name in Type.Is / Underlying().Is / SinkType.Is / Implements (pkg.T and "
+              "fully-qualified) / HasMethod, sometimes custom filters with ctx.GetType / ctx.GetInterface of a fully-qualified name; "
+              "hand-written collision scenarios (both orders of groups with / without imports, every std base name shared by several "
+              "packages, files importing a rule bundle whose groups have imports of their own) + seeded random ones; all loaded into one "
+              "engine (bundle files: engines of their own) and run once over ~46 typed probes per rule (stdlib, third-party, exact "
+              "vendored copies, vendored near misses). Plus the std sweep: one rule per base name that stdinfo knows, probed with one "
+              "value per candidate package path. A case (file, group, rule) is non-trivial when the name's package is bound by an "
+              "Import() of that or another group of the file, or the expected outcome is a load error, or the rule reports at least one "
+              "probe; a swept name when several packages compete for it or the table leaves it out; distinct by (imports of all groups, "
+              "skip flags, the rule's request) / (name)")
     c.trusted += [
         "go/types + the engine's importer for what packages contain (Section variable `world` of ImportsTab.v; the harness fills it from go/types)",
         "github.com/quasilyte/stdinfo.PathByName as the stdlib default table (read by the harness for the names used)",
